@@ -192,9 +192,12 @@ class DirectoryPaths(AbstractPaths):
         analysing samples and other tasks.
         """
         filename = self.search_internal_path / "search_internal.dill"
+        temporary = self.search_internal_path / "search_internal.dill.tmp"
 
-        with open_(filename, "wb") as f:
+        with open_(temporary, "wb") as f:
             dill.dump(obj, f)
+
+        os.replace(temporary, filename)
 
     def load_search_internal(self):
         """
